@@ -141,4 +141,26 @@ example : ((emptyM.insertAllM [(⟨0,0⟩,0,0), (⟨4,0⟩,1,0), (⟨4,4⟩,2,0)
       (r.2, t.2, t.1.isFlag 0, t.1.isFlag 4, t.1.isFlag 2)) = some ([0], [4], true, true, false) := by
   decide +kernel
 
+/-- "`remove_constraint_edge` deletes exactly the named piece" on the model: afterwards the named
+edge is not a constraint edge, every other flag is as before (the legalisation that restores the
+Delaunay property never touches a flag), and the answer says whether it was one -/
+theorem C04_model_remove_constraint_flags (s : St) (a b : Nat) (t : St) (ans : Bool)
+    (h : s.removeConstraintEdgeM a b = some (t, ans)) :
+    ∃ e, s.edgeFromNeighbors a b = some e ∧ ans = s.isFlag e ∧
+      ∀ x, t.isFlag x = (s.isFlag x && !(ans && decide (x / 2 = e / 2))) :=
+  St.removeConstraint_flags s a b t ans h
+
+/-- … and it keeps the link invariant -/
+theorem C04_model_remove_constraint_links (s : St) (hs : s.LInv) (a b : Nat) (t : St) (ans : Bool)
+    (h : s.removeConstraintEdgeM a b = some (t, ans)) : t.LInv :=
+  hs.removeConstraintEdgeM a b t ans h
+
+/-- non-vacuity: on the quadrilateral (0,0) (4,0) (6,6) (0,4) the Delaunay diagonal is 1–3; the
+constraint 0–2 is added (one flip) and removed again: the answer is `true`, the flag is gone and
+legalisation flips the diagonal back to 1–3 -/
+example : ((emptyM.insertAllM [(⟨0,0⟩,0,0), (⟨4,0⟩,1,0), (⟨6,6⟩,2,0), (⟨0,4⟩,3,1)]).bind fun s =>
+    (s.tryAddConstraintM 0 2).bind fun r => (r.1.removeConstraintEdgeM 0 2).map fun t =>
+      (t.2, t.1.isFlag 4, (t.1.edgeFromNeighbors 1 3).isSome)) = some (true, false, true) := by
+  decide +kernel
+
 end Spade
